@@ -101,11 +101,30 @@ def body_clobber(ch, ctx):
     sig = dict(old=kind, force=force)
     ctx.sample(lambda: dict(old=kind, new=NEW[ni], force=force, input=via))
     ctx.nontrivial()
+    variant = ch.choose("call", ("plain", "invalid_merge_fields", "pragmas_none", "input_older_than_database"))
+    extra = {}
+    if variant == "invalid_merge_fields":
+        extra = dict(merge_strategy="merge", force_merge_fields=["start"])      # rejected option combination
+    elif variant == "pragmas_none":
+        extra = dict(pragmas=None)                                               # another call that cannot succeed
+    elif variant == "input_older_than_database" and via == "path":
+        os.utime(data, (1000000000, 1000000000))                                 # the new input file is older than the old database
+    sig = dict(sig, call=variant)
     raised = None
     try:
-        db = gffutils.create_db(data, target, force=force, verbose=False, **kw)
+        db = gffutils.create_db(data, target, force=force, verbose=False, **dict(kw, **extra))
     except Exception as e:
         raised = e
+    if variant in ("invalid_merge_fields", "pragmas_none"):
+        # the call fails whatever 'force' says; without force the existing file must survive it untouched
+        ctx.check(raised is not None, "invalid-call-did-not-raise", sig)
+        if raised is None:
+            dbutil.close_db(db)
+        if not force:
+            ok = os.path.exists(target) and dbutil.canon(target) == pcanon
+            ctx.check(ok, "existing-database-destroyed-by-failing-call", sig, exists=os.path.exists(target), error=str(raised)[:200])
+        ctx.outcome((kind, ni, force, variant))
+        return
     if not force:
         ctx.check(raised is not None, "existing-database-overwritten-without-force", sig, new=NEW[ni])
         if raised is None:
@@ -208,11 +227,22 @@ def body_reads(ch, ctx):
     target = os.path.join(wd, "r.db")
     shutil.copyfile(ppath, target)
     db = gffutils.FeatureDB(target)
+    pending = ch.flag("failed_write_pending")
+    if pending:
+        # an earlier write on this object failed half-way (its callback raised): nothing of it may ever reach the file
+        def boom(parent, child):
+            raise RuntimeError("callback failed")
+        try:
+            first = next(db.all_features())
+            db.add_relation(first, first, 9, parent_func=boom)
+        except RuntimeError:
+            pass
     stmts = []
     db.conn.set_trace_callback(stmts.append)
     results = []
     sig = dict(db=kind)
     ctx.sample(lambda: dict(db=kind, calls=seq))
+    sig_pending = None
     ctx.nontrivial()
     for name in seq:
         try:
@@ -228,7 +258,7 @@ def body_reads(ch, ctx):
     same_bytes = open(target, "rb").read() == pbytes
     ctx.outcome((kind, same_bytes, len(stmts) > 0))
     changed = [k for k in pcanon if pcanon[k] != after[k]]
-    ctx.check(not changed, "database-content-changed-by-reads", dict(sig, tables=",".join(changed)), calls=seq)
+    ctx.check(not changed, "database-content-changed-by-reads", dict(sig, tables=",".join(changed), failed_write_pending=pending), calls=seq)
     reopened = gffutils.FeatureDB(target)
     ok = (reopened.directives == pcanon["directives"] and reopened.dialect == pcanon["meta"][0][0]
           and sorted(dict(reopened._autoincrements).items()) == pcanon["autoincrements"])
